@@ -107,7 +107,9 @@ class SymStr(str):
         return self._cmp(o, lambda a, b: a >= b)
 
     def __hash__(self) -> int:  # type: ignore[override]
-        raise Unsupported("hash of a symbolic string")
+        # equal-length symbolic strings share one hash, so dict look-ups fall through to __eq__ (solver);
+        # a dict with concrete keys of other hashes must be wrapped in SymKeyDict to be searched symbolically
+        return str.__hash__(self)
 
     def __contains__(self, o: Any) -> bool:  # type: ignore[override]
         if isinstance(o, str) and len(o) == 1:
